@@ -52,17 +52,19 @@ static int L_nfc_calls, L_nfkd_calls;
 static const char* L_nfc_in; static char* L_nfc_out;
 static const char* L_nfkd_in; static char* L_nfkd_out;
 static int L_seq;               /* global order of dependency calls */
+static int L_last_other_seq;    /* order number of the last call that is not a wipe (dependency or harness-level stub) */
+#define DEP_TICK() do { L_seq++; L_last_other_seq = L_seq; } while (0)
 static int L_other_calls;       /* calls beyond the log capacity: always a failure */
 
 static void dep_randbytes(void* result, size_t n) {
-    L_rand_calls++; L_rand_ptr = result; L_rand_n = n; L_seq++;
+    L_rand_calls++; L_rand_ptr = result; L_rand_n = n; DEP_TICK();
     if (n > sizeof(DEPIN.rnd)) { L_other_calls++; n = sizeof(DEPIN.rnd); }
     memcpy(result, DEPIN.rnd, n);
 }
 
 static void dep_pbkdf2(const uint8_t* pw, size_t pwlen, const uint8_t* salt, size_t saltlen,
     uint64_t iterations, uint8_t* key, size_t keylen) {
-    L_seq++;
+    DEP_TICK();
     if (L_kdf_calls >= DEP_MAX_KDF) { L_other_calls++; return; }
     int k = L_kdf_calls++;
     L_kdf[k].pw = pw; L_kdf[k].pwlen = pwlen; L_kdf[k].salt = salt; L_kdf[k].saltlen = saltlen;
@@ -94,7 +96,7 @@ static void dep_memzero(void* const ptr, const size_t len) {
 }
 
 static void* dep_alloc(size_t n) {
-    L_seq++;
+    DEP_TICK();
     if (L_alloc_calls >= DEP_MAX_ALLOC) { L_other_calls++; return NULL; }
     int k = L_alloc_calls++;
     if (DEPIN.alloc_fail[k]) { L_blk[k].p = NULL; L_blk[k].n = n; L_blk[k].live = false; return NULL; }
@@ -130,7 +132,7 @@ static int dep_live_blocks(void) {
     return n;
 }
 
-static uint64_t dep_time(void) { L_seq++; L_time_calls++; return DEPIN.now; }
+static uint64_t dep_time(void) { DEP_TICK(); L_time_calls++; return DEPIN.now; }
 
 static size_t dep_norm_write(polyseed_str norm) {
     size_t n = 0;
@@ -139,20 +141,21 @@ static size_t dep_norm_write(polyseed_str norm) {
     return n;
 }
 static size_t dep_nfc(const char* str, polyseed_str norm) {
-    L_seq++; L_nfc_calls++; L_nfc_in = str; L_nfc_out = norm;
+    DEP_TICK(); L_nfc_calls++; L_nfc_in = str; L_nfc_out = norm;
     return dep_norm_write(norm);
 }
 static size_t dep_nfkd(const char* str, polyseed_str norm) {
-    L_seq++; L_nfkd_calls++; L_nfkd_in = str; L_nfkd_out = norm;
+    DEP_TICK(); L_nfkd_calls++; L_nfkd_in = str; L_nfkd_out = norm;
     return dep_norm_write(norm);
 }
 
 /* number of distinct objects of size n that were wiped as a whole (offset 0,
  * length = object size; object size and offset come from CBMC's pointer model,
  * natively only the length can be compared) through the injected memzero */
-static int dep_wipes_whole(size_t n) {
+static int dep_wipes_whole_from(size_t n, int after_seq) {
     int c = 0;
     for (int k = 0; k < L_mz_calls && k < DEP_MAX_MZ; ++k) {
+        if (L_mz[k].seq <= after_seq) continue;
 #ifndef REPLAY
         if (L_mz[k].n == n && L_mz[k].objsize == n && L_mz[k].offset == 0) {
 #else
@@ -165,6 +168,7 @@ static int dep_wipes_whole(size_t n) {
     }
     return c;
 }
+static int dep_wipes_whole(size_t n) { return dep_wipes_whole_from(n, 0); }
 
 /* C16 obligations regenerated from the goto symbol table (c16_gen.h): every
  * automatic aggregate of >= 16 bytes declared in the API function (and in the
@@ -178,6 +182,9 @@ static int dep_wipes_whole(size_t n) {
         int need_ = 0; \
         for (int b_ = 0; b_ < C16_N_##fn; ++b_) if (obl_[b_] == obl_[a_]) need_++; \
         VASSERT(dep_wipes_whole(obl_[a_]) >= need_, msg); \
+        /* ... and after the last call that could still have written to it: the \
+         * temporaries stay live across every dependency / callee call */ \
+        VASSERT(dep_wipes_whole_from(obl_[a_], L_last_other_seq) >= need_, "C16 temporaries are wiped after their last use (after the last dependency or callee call), not before"); \
     } } while (0)
 
 /* forget the call log (used after an arbitrary *earlier* API call: harnesses with a
@@ -186,7 +193,7 @@ static void dep_reset_logs(void) {
     L_rand_calls = 0; L_rand_ptr = NULL; L_rand_n = 0; L_time_calls = 0; L_kdf_calls = 0;
     L_mz_calls = 0; L_alloc_calls = 0; L_free_calls = 0; L_foreign_free = 0;
     L_nfc_calls = 0; L_nfkd_calls = 0; L_nfc_in = NULL; L_nfc_out = NULL; L_nfkd_in = NULL; L_nfkd_out = NULL;
-    L_seq = 0;
+    L_seq = 0; L_last_other_seq = 0;
     for (int b = 0; b < DEP_MAX_ALLOC; ++b) { L_blk[b].p = NULL; L_blk[b].n = 0; L_blk[b].live = false; L_blk[b].freed_times = 0; L_blk[b].wiped_before_free = 0; L_blk[b].free_seq = 0; }
 }
 
